@@ -362,6 +362,26 @@ def history_case(draw, tier="quick"):
     if draw(st.integers(0, 9)) < 7:
         # construction, not rejection: fill the record first so later reads see real history
         ops = [["push", draw(_pool), draw(st.booleans()), "same"] for _ in range(n)] + ops
+    if draw(st.integers(0, 2)) == 0:
+        # block: reset(f); 1-3 writes of ONE generated kind (any write must leave the storage ready for the
+        # next reset); reset(f) with the same fill -- inserted at a generated position
+        f = draw(st.sampled_from([0, 3, -2]))
+        wkind = draw(st.sampled_from(["push", "write", "writerange_s", "writerange_t"]))
+        ip = draw(st.booleans())
+        block = [["reset", f]]
+        for _ in range(draw(st.integers(1, 3))):
+            if wkind == "push":
+                block.append(["push", draw(_pool), ip, "same"])
+            elif wkind == "write":
+                block.append(["write", draw(_pool), draw(_raw), ip, "same"])
+            else:
+                osp = ["s", draw(_raw)] if wkind == "writerange_s" else ["t", draw(st.lists(_raw, min_size=1, max_size=4))]
+                block.append(["writerange", draw(_pool), draw(_raw), osp, draw(st.booleans()), ip])
+            if draw(st.booleans()):
+                block.append(["incr", draw(_raw)])
+        block += [["reset", f], ["read", draw(_raw)]]
+        pos = draw(st.integers(0, len(ops)))
+        ops = ops[:pos] + block + ops[pos:]
     if kind in ("none", "empty0", "ubuf", "uparam") and draw(st.integers(0, 4)) > 0:
         # make sure the lazily created storage is reached: start with a push
         # the first push may carry another dtype than the one the placeholder declares: only None
